@@ -34,7 +34,7 @@ type C17Spec struct {
 	PrimeBits int      `json:"prime_bits"`
 	NBases    int      `json:"n_bases"`
 	Samples   int      `json:"samples"` // tampered leaves per run
-	Bad       int      `json:"bad"`     // 0 good key; 2 p == q; 4 safe primes failing the residue conditions (composite p', q' make the prover itself loop forever and are not run)
+	Bad       int      `json:"bad"`     // 0 good key; 2 p == q; 4 safe primes failing the residue conditions; 5 good modulus, non-residue base, Byzantine prover with a degenerate commitment (composite p', q' make the prover itself loop forever and are not run)
 	OnlyFault []string `json:"only_fault,omitempty"`
 }
 
@@ -47,7 +47,7 @@ func drawC17(rt *rapid.T) C17Spec {
 		s.Samples = rapid.IntRange(10, 40).Draw(rt, "samples_t")
 	}
 	if rapid.IntRange(0, 4).Draw(rt, "bad") == 0 {
-		s.Bad = rapid.SampledFrom([]int{2, 4}).Draw(rt, "badkind")
+		s.Bad = rapid.SampledFrom([]int{2, 4, 5, 5}).Draw(rt, "badkind")
 	}
 	return s
 }
@@ -106,6 +106,35 @@ func execC17(r *kernel.Run, s C17Spec) {
 		return
 	}
 
+	if s.Bad == 5 {
+		// Byzantine prover (inside the package, build tag verif) for a good modulus and a base list that
+		// contains a quadratic non-residue: it knows no root of that base and commits to n with the
+		// degenerate Pedersen commitment 0
+		r.Fault("bad-key-prover")
+		bad := big.NewInt(2)
+		for mbig.Jacobi(bad.Go(), n.Go()) != -1 {
+			bad.Add(bad, big.NewInt(1))
+		}
+		bb := append([]*big.Int{}, bases...)
+		bb[hr.IntN(len(bb))] = bad
+		bst := keyproof.NewValidKeyProofStructure(n, bb)
+		var wire []byte
+		r.Eval(1)
+		if pm := guard(func() {
+			pr := keyproof.VerifBuildProofDegenerateCommitment(&bst, pp, qp)
+			wire, _ = json.Marshal(pr)
+		}); pm != "" || wire == nil {
+			r.Probe("bad-key-prover-refused")
+			return
+		}
+		vst := keyproof.NewValidKeyProofStructure(n, bb)
+		if ok, _ := verify(wire, &vst); ok {
+			r.Violate("C17:bad-key-accepted", map[string]any{"bad": s.Bad}, "a key proof verifies for a base list containing %v, which has Jacobi symbol -1 modulo n (no square): the proof carries the degenerate Pedersen commitment 0", bad)
+		} else {
+			r.Probe("bad-key-proof-rejected")
+		}
+		return
+	}
 	if s.Bad != 0 {
 		// provers on inputs that are not a good key: whatever they emit must be rejected
 		r.Fault("bad-key-prover")
@@ -204,6 +233,13 @@ func execC17(r *kernel.Run, s C17Spec) {
 			st4 := keyproof.NewValidKeyProofStructure(n, bases[:len(bases)-1])
 			deliver("fewer-bases", "wrong-key-delivery", wire, &st4)
 		}
+		// a base list with a base far larger than the modulus (key documents do not bound base sizes)
+		b5 := append([]*big.Int{}, bases...)
+		b5[len(b5)-1] = new(big.Int).Lsh(b5[len(b5)-1], uint(n.BitLen())+700)
+		var st5 keyproof.ValidKeyProofStructure
+		if pm := guard(func() { st5 = keyproof.NewValidKeyProofStructure(n, b5) }); pm == "" {
+			deliver("oversized-base", "wrong-key-delivery", wire, &st5)
+		}
 	}
 	// tampered leaves, stratified by leaf kind
 	tree := kernel.MustDecode(wire)
@@ -258,7 +294,7 @@ func execC17(r *kernel.Run, s C17Spec) {
 		bKinds[k] = append(bKinds[k], p)
 	}
 	r.Stats().Probes["array-boundary-kinds"] = max(r.Stats().Probes["array-boundary-kinds"], len(bNames))
-	nStruct := 6 * s.Samples // structurally broken proofs are refused (or crash) early: cheap
+	nStruct := 3 * s.Samples // structurally broken proofs are refused (or crash) early: cheap
 	for k := 0; k < nStruct && len(boundary) > 0; k++ {
 		ps := bKinds[bNames[hr.IntN(len(bNames))]]
 		p := ps[hr.IntN(len(ps))]
@@ -295,7 +331,7 @@ func execC17(r *kernel.Run, s C17Spec) {
 		oKinds[k] = append(oKinds[k], p)
 	}
 	r.Stats().Probes["object-kinds"] = max(r.Stats().Probes["object-kinds"], len(oNames))
-	for k := 0; k < 3*s.Samples && len(objs) > 0; k++ {
+	for k := 0; k < s.Samples && len(objs) > 0; k++ {
 		ps := oKinds[oNames[hr.IntN(len(oNames))]]
 		p := ps[hr.IntN(len(ps))]
 		node, _ := kernel.Get(tree, p)
